@@ -77,7 +77,7 @@ m("elim_inherit_without_contains", "C05 C03 C06", IE, "                .filter(|
 m("elim_forward_needs_one_sibling_less", "C03 C06", IE, "        if infeasible_children.len() != K - 1 {\n            return None;\n        }", "        if infeasible_children.len() > K - 1 {\n            return None;\n        }")
 m("elim_infeasible_as_indeterminate", "C06", IE, "            PolytopeStatus::Infeasible => {\n                counter.lps_infeasible += 1;\n                NodeState::Infeasible\n            }", "            PolytopeStatus::Infeasible => {\n                counter.lps_infeasible += 1;\n                NodeState::Indeterminate\n            }")
 m("elim_no_forwarding", "C06", IE, "            if n_remaining == 0 {\n                self.forward_if_redundant(parent_idx);\n            }", "            if n_remaining == usize::MAX {\n                self.forward_if_redundant(parent_idx);\n            }")
-m("elim_deferred_wrong_label", "C03 C06", IE, "            let _ = self.tree.try_remove_child(node, label);", "            let _ = self.tree.try_remove_child(node, 1 - label);")
+m("elim_deferred_wrong_label", "C11 C03 C06", IE, "            let _ = self.tree.try_remove_child(node, label);", "            let _ = self.tree.try_remove_child(node, 1 - label);")
 m("mirror_step_sign", "C05", IE, "                point += &step_vec", "                point -= &step_vec")
 m("edge_feasible_parent_witness_any_to_all", "C03", IE, "                if wit.iter().any(|point| poly.contains(point)) {\n                    return true;\n                }", "                if wit.iter().any(|point| !poly.contains(point)) {\n                    return false;\n                }")
 # --- ops
@@ -93,7 +93,7 @@ m("schema_hard_tanh_terminals_swapped", "C17 C01", SC, "    dd.add_child_node(n,
 m("schema_leaky_alpha_on_identity_branch", "C17 C01", SC, "    dd.add_child_node(0, 0, affine_false).unwrap();\n    dd.add_child_node(0, 1, affine_true).unwrap();\n\n    dd\n}\n\n/// Creates an AffTree instance that corresponds to the hard hyperbolic", "    dd.add_child_node(0, 1, affine_false).unwrap();\n    dd.add_child_node(0, 0, affine_true).unwrap();\n\n    dd\n}\n\n/// Creates an AffTree instance that corresponds to the hard hyperbolic")
 m("schema_argmax_last_level_swapped", "C17 C01", SC, "            let affine_false = AffFunc::constant(dim, max_when_false as f64);\n            let affine_true = AffFunc::constant(dim, max_when_true as f64);", "            let affine_false = AffFunc::constant(dim, max_when_true as f64);\n            let affine_true = AffFunc::constant(dim, max_when_false as f64);")
 m("schema_class_skips_last_other", "C17 C01", SC, "    let mut iter = (0..dim).filter(|x| *x != clazz);", "    let mut iter = (0..dim.max(3) - 1).filter(|x| *x != clazz);")
-m("schema_inf_norm_ignores_max", "C17", SC, "        (Some(a), Some(b)) => (a, Some(b)),", "        (Some(a), Some(_b)) => (a, None),")
+m("schema_inf_norm_ignores_max", "C17", SC, "        (Some(a), Some(b)) => (a, Some(b)),", "        (Some(a), Some(b)) => (a, Some(b).filter(|_| false)),")
 m("schema_threshold_value_on_label0", "C17", SC, "    let mut affine_true = AffFunc::zero_idx(dim, row);\n    affine_true.bias[row] = value;\n    let affine_false = AffFunc::identity(dim);\n\n    dd.add_child_node(0, 0, affine_false).unwrap();\n    dd.add_child_node(0, 1, affine_true).unwrap();", "    let mut affine_true = AffFunc::zero_idx(dim, row);\n    affine_true.bias[row] = value;\n    let affine_false = AffFunc::identity(dim);\n\n    dd.add_child_node(0, 1, affine_false).unwrap();\n    dd.add_child_node(0, 0, affine_true).unwrap();")
 # --- builder / arch
 m("builder_hard_tanh_bounds", "C01 C18", BU, "partial_hard_tanh(dim, *row, -1., 1.)", "partial_hard_tanh(dim, *row, 0., 1.)")
